@@ -1,6 +1,7 @@
 package harness
 
 import (
+	"bytes"
 	"fmt"
 	"testing"
 )
@@ -113,4 +114,73 @@ func TestC04(t *testing.T) {
 		}
 		return "field-rewrite"
 	})
+	c04Histories(r)
+}
+
+// c04Histories: the same ConnData objects through several handshakes (first pairing, reconnects,
+// a responder whose auth payload changes or disappears); after every completed handshake the
+// initiator must hold exactly the payload the responder was configured with at that time.
+func c04Histories(r *Recorder) {
+	pass := []byte("pairing-phrase-entropy")
+	builders := map[string]func(n int) []byte{
+		"exact": func(n int) []byte { return patterned(n, 9) },
+		"spare-capacity": func(n int) []byte {
+			return append(make([]byte, 0, n+64), patterned(n, 9)...)
+		},
+		"sub-slice": func(n int) []byte {
+			big := patterned(n+300, 9)
+			return big[:n]
+		},
+	}
+	for _, vr := range [][2]byte{{0, 2}, {1, 1}, {2, 2}, {0, 0}} {
+		for bname, mk := range builders {
+			for _, n := range []int{5, 300} {
+				want := append([]byte(nil), mk(n)...)
+				cli := &hsSide{Priv: key(5001), Passphrase: pass, Min: vr[0], Max: vr[1]}
+				srv := &hsSide{Priv: key(5002), Passphrase: pass, AuthData: mk(n), Min: vr[0], Max: vr[1]}
+				hist := []string{}
+				check := func(round string, expect []byte) bool {
+					hist = append(hist, round)
+					replay := map[string]interface{}{"versions": vr, "payload": bname, "len": n, "history": append([]string(nil), hist...)}
+					if cli.Err != nil || srv.Err != nil {
+						r.Violate("C04/honest-handshake-failed", fmt.Sprintf("%s: client %v, server %v", round, cli.Err, srv.Err), replay)
+						return false
+					}
+					got := cli.Data.AuthData()
+					if !bytes.Equal(got, expect) {
+						r.Violate("C04/auth-payload-differs", fmt.Sprintf("%s: both sides completed, the initiator holds %d bytes of auth data (%.24x…) but the responder's payload is %d bytes (%.24x…)",
+							round, len(got), got, len(expect), expect), replay)
+						return false
+					}
+					if !cli.gotAuth || !bytes.Equal(cli.OnAuth, expect) {
+						r.Violate("C04/auth-callback", fmt.Sprintf("%s: the initiator's auth-data callback was called=%v with %d bytes, the responder's payload has %d", round, cli.gotAuth, len(cli.OnAuth), len(expect)), replay)
+						return false
+					}
+					return true
+				}
+				cc, sc := newMemPair()
+				runHandshakeReuse(cli, srv, cc, sc)
+				ok := check("first pairing", want)
+				for k := 0; ok && k < 2; k++ {
+					cc, sc = newMemPair()
+					runHandshakeReuse(cli, srv, cc, sc)
+					ok = check(fmt.Sprintf("reconnect %d, same ConnData on both sides", k+1), want)
+				}
+				if ok && vr[1] >= 2 {
+					// the responder restarts without auth data (same key, paired)
+					srv2 := &hsSide{Priv: srv.Priv, Remote: cli.Priv.PubKey(), Passphrase: pass, Min: vr[0], Max: vr[1]}
+					cc, sc = newMemPair()
+					runHandshakeReuse(cli, srv2, cc, sc)
+					ok = check("reconnect to a responder without auth data", nil)
+					if ok {
+						srv3 := &hsSide{Priv: srv.Priv, Remote: cli.Priv.PubKey(), Passphrase: pass, AuthData: mk(n + 1), Min: vr[0], Max: vr[1]}
+						cc, sc = newMemPair()
+						runHandshakeReuse(cli, srv3, cc, sc)
+						check("reconnect to a responder with a new auth payload", append([]byte(nil), mk(n+1)...))
+					}
+				}
+				r.Case(fmt.Sprintf("history:%v:%s:%d", vr, bname, n), true, "history/"+bname)
+			}
+		}
+	}
 }
